@@ -138,8 +138,7 @@ def _restore_sym(k):
 class SymInt:
     """Symbolic Python int."""
     __slots__ = ("e", "hashmode", "lo", "hi")
-    _registry = []
-    _index = {}
+    _registry = {}
 
     def __init__(self, e, hashmode="const", lo=-8, hi=8):
         self.e = e
@@ -154,15 +153,11 @@ class SymInt:
         return 0
 
     def __repr__(self):
-        # printable and re-evaluable: `_S[k]` resolves through the registry;
-        # the index is stable per term so that printed expressions compare equal
+        # printable and re-evaluable: `_S['<term>']` resolves through the registry; the
+        # text depends on the term only (stable across processes)
         key = self.e.sexpr()
-        k = SymInt._index.get(key)
-        if k is None:
-            k = len(SymInt._registry)
-            SymInt._index[key] = k
-            SymInt._registry.append(self)
-        return f"_S[{k}]"
+        SymInt._registry[key] = self
+        return f"_S[{key!r}]"
 
     def __reduce__(self):
         # pickling within one process: original and copy hold the same z3 symbol
